@@ -684,3 +684,16 @@ def regressions():
     for k, text in cases.items():
         R.append(Schema("regression-f12_" + k, {f"f12_{k}.proto": H + "package rp;\n" + text}, tags=["docstring_escape"]))
     return R
+
+
+# the .proto sources of the descriptors written out in coq/Proofs/PluginWitP.v (non-vacuity example and
+# refutation witnesses); the harness checks that the stand-in naming functions used there agree with the
+# real ones on every name of these schemas
+_H = 'syntax = "proto3";\n'
+COQ_WITNESS_SOURCES = {
+ "D_ok": _H + 'package p.q;\nimport "google/protobuf/timestamp.proto";\nimport "google/protobuf/wrappers.proto";\nenum Color { RED = 0; NEG = -1; }\nmessage Outer {\n  message Inner { Outer back = 1; enum Kind { ZERO = 0; } Kind k = 2; }\n  map<string, Inner> by_name = 1;\n  oneof pick { int32 a = 2; Color c = 3; }\n  optional double od = 4;\n  repeated Inner rs = 5;\n  google.protobuf.Timestamp ts = 6;\n  google.protobuf.BoolValue bv = 7;\n  map<int64, Color> colors = 8;\n}\n',
+ "D_k1": _H + 'package wp;\nmessage Col { message Bar { int32 a = 1; } Bar b = 1; }\nmessage ColBar { string s = 1; }\n',
+ "D_k8": _H + 'package wp;\nmessage A { int32 list = 1; string List = 2; }\n',
+ "D_k2": _H + 'package wp;\nmessage lower { message inner { int32 x = 1; } inner i = 1; }\n',
+ "D_k13": _H + 'package wp;\nmessage FooEntry { int32 x = 1; }\nmessage M { FooEntry foo = 1; map<string, int32> f_oo = 2; }\n',
+}
